@@ -34,6 +34,10 @@ CLAIMS = {
    text="Static decision of structural clauses of the flag-complex edge collapser: under GUDHI_COLLAPSE_USE_DENSE_ARRAY every writer of the sparse neighbour table writes the dense table with the same symmetric key pairs and values, and both configurations perform the same sparse writes; the dense and sparse arms of the domination tests compare against the same bound with the same strictness; an emitted edge carries the endpoints of the current input edge and exactly the new time written to the neighbour table; a removed edge is not emitted; the edge sort is the strict descending order on the value in the TBB and the sequential build. That the collapsed graph has the same persistence (the domination argument) is not decided.",
    note="Trusted: clang 14 parser; three preprocessor configurations are parsed on every run; key expressions are compared textually inside one function.",
    tech="dual-table / sibling-arm agreement, provenance, comparator enumeration over the clang AST", ref="DESIGN.md 4/C12"),
+ "C04": dict(
+   text="Static decision of the reporting clause of incremental flag insertion ('each incremental insertion reports exactly the simplices it created'): in insert_edge_as_flag and every function that receives its output vector, every creation of nodes is followed on every path by the push of those nodes into the output before the next creation or the exit, nothing is pushed that was not created on that path, and a creation that turns out not to have happened (`ins.second` false) must not have been reported. Equality of the complexes built by the three expansion routes, filtration values and blocker maximality are not decided.",
+   note="Trusted: clang 14 parser, class-local call resolution by name, the for-all loop idiom. Shares the creation events of C01.",
+   tech="structured path rule with pairing/counting (E2n) over the clang AST", ref="DESIGN.md 4/C04"),
 }
 
 NA = {
